@@ -343,7 +343,8 @@ func (r mResult) sorted() []mSeries {
 // compared position-wise after a stable sort, which is what makes split series visible.
 func sameResult(a, b mResult) bool {
 	if a.Err != "" || b.Err != "" {
-		return a.Err == b.Err
+		// error or not; the class is derived from message wording and is not compared
+		return (a.Err != "") == (b.Err != "")
 	}
 	if a.Kind != b.Kind || len(a.Series) != len(b.Series) {
 		return false
